@@ -7,8 +7,9 @@
 (* written for): the SAME text that IntFastMC.tla model-checks for W = 4,   *)
 (* 6, 8 predicts here what the real gojq returns for recorded operands of   *)
 (* any magnitude.  Each record is one (operator, a, b) with the results the *)
-(* real code gave for several Go representations of the operands; the       *)
-(* verdict per run compares                                                 *)
+(* real code gave for several Go representations of the operands and query  *)
+(* shapes (run.mode: "var" $a op $b, "input" .[0] op .[1], "lit" literals   *)
+(* in the query text, "addfn" [$a,$b]|add); the verdict per run compares                                                 *)
 (*   - the real result with the exact mathematical result (ExactBinary ...) *)
 (*     -> agree / mismatch   (this is the property);                        *)
 (*   - what the library encoder printed for it with the value it had        *)
@@ -70,7 +71,7 @@ Model(rec, run) ==
   LET a == Operand(ZOf(rec.a), run.la) IN
   CASE rec.kind = "un"  -> Unary(rec.op, a)
     [] rec.kind = "bin" -> LET b == Operand(ZOf(rec.b), run.lb) IN
-                           IF rec.mode = "addfn" THEN AddFn(a, b) ELSE Binary(rec.op, a, b)
+                           IF run.mode = "addfn" THEN AddFn(a, b) ELSE Binary(rec.op, a, b)
     [] rec.kind = "rel" -> [rep |-> "bool", b |-> Relation(rec.op, a, Operand(ZOf(rec.b), run.lb))]
 
 Exact(rec) ==
